@@ -782,6 +782,7 @@ func (h *H) batchFn(a *compArgs, write bool) func(e ecs.Entity, ps []valued, nam
 			r.comps = append(r.comps, cv{name: -1, bad: true})
 		}
 		h.log = append(h.log, r)
+		h.provoke(e)
 		if write {
 			for i, p := range ps {
 				if v, ok := a.vals[names[i]]; ok {
@@ -789,6 +790,27 @@ func (h *H) batchFn(a *compArgs, write bool) func(e ecs.Entity, ps []valued, nam
 				}
 			}
 		}
+	}
+}
+
+// provoke: from inside a callback, while the world is locked, a structural call on every shared
+// single-component mapper of a relation component. Each must be rejected WITHOUT effect — in particular
+// without effect on the operation that is running the callback, which may be using the same mapper
+// (its cached relation buffer). Nothing is logged: a correct implementation shows no trace of these
+// calls; an effect shows up as a divergence from the model later (defect D23).
+func (h *H) provoke(e ecs.Entity) {
+	if !h.w.IsLocked() || !h.w.Alive(e) {
+		return
+	}
+	for _, rc := range h.comps {
+		if rc.info.kind != "rel" {
+			continue
+		}
+		rc := rc
+		func() {
+			defer func() { _ = recover() }()
+			rc.m.SetRelation(e, e)
+		}()
 	}
 }
 
